@@ -154,3 +154,57 @@ func VerifC12FreshIDs() {
 	}
 	vObserve(fresh[0], fresh[1], fresh[2])
 }
+
+func init() { vRegister("VerifC03MergeMany", VerifC03MergeMany) }
+
+// VerifC03MergeMany: three or four inputs of different sizes (location counts
+// chosen from 1..3 in any order: state kept from one input must not leak into
+// the next): every input stack is in the result with its own frames and value.
+func VerifC03MergeMany() {
+	k := 3 + vChoice("k", vBound("c03.many", 1))
+	var ps []*Profile
+	type exp struct {
+		name string
+		v    int64
+	}
+	var want []exp
+	for i := 0; i < k; i++ {
+		n := 1 + vChoice("n"+string(rune('0'+i)), 3)
+		m := &Mapping{ID: 1, Start: 0x1000, Limit: 0x9000, File: "bin"}
+		p := &Profile{SampleType: []*ValueType{{Type: "samples", Unit: "count"}}, PeriodType: &ValueType{Type: "cpu", Unit: "ns"}, Period: 1, Mapping: []*Mapping{m}}
+		for j := 0; j < n; j++ {
+			name := "p" + string(rune('0'+i)) + "f" + string(rune('0'+j))
+			f := &Function{ID: uint64(j + 1), Name: name, SystemName: name, Filename: "f.go"}
+			l := &Location{ID: uint64(j + 1), Mapping: m, Address: uint64(0x1000 + 0x100*i + 0x10*j), Line: []Line{{Function: f, Line: int64(j + 1)}}}
+			v := vInt64("v" + string(rune('0'+i)) + string(rune('0'+j)))
+			vAssume(v >= 1)
+			vAssume(v < 1<<40)
+			p.Function = append(p.Function, f)
+			p.Location = append(p.Location, l)
+			p.Sample = append(p.Sample, &Sample{Location: []*Location{l}, Value: []int64{v}})
+			want = append(want, exp{name, v})
+		}
+		ps = append(ps, p)
+	}
+	m, err := Merge(ps)
+	vReach("C03.many:merged")
+	if err != nil {
+		vAssert(false, "C03.many.error: merging compatible profiles failed")
+		return
+	}
+	vAssert(m.CheckValid() == nil, "C03.many.valid: merged profile is not valid")
+	if len(m.Sample) != len(want) {
+		vAssert(false, "C03.many.count: the result does not hold one sample per distinct input stack")
+		return
+	}
+	for i, w := range want {
+		s := m.Sample[i]
+		ok := len(s.Location) == 1 && len(s.Location[0].Line) == 1 && s.Location[0].Line[0].Function != nil
+		if ok {
+			ok = s.Location[0].Line[0].Function.Name == w.name
+		}
+		vAssert(ok, "C03.many.frames: a stack's frames are not those of the input stack (weights moved to other frames)")
+		vAssert(s.Value[0] == w.v, "C03.many.value: a stack's value is not the input's")
+	}
+	vObserve(len(m.Location), len(m.Function))
+}
